@@ -1,8 +1,9 @@
 //! C17 — ingest protocol conversion is faithful, and no payload can crash the receiver.
 //!
 //! Worker processes run the cases, the parent watches a per-case progress file:
-//! a worker that dies or makes no progress for 10 s inside one request body is
-//! the recorded outcome (the hang / crash IS the property here).
+//! a worker that dies, or computes for more than 20 s of user-mode CPU time inside one
+//! request body without finishing it, is the recorded outcome (the hang / crash IS the
+//! property here).
 //! Lanes: (1) well-formed Prometheus remote-write through the real HTTP router
 //! -> real ingester -> flushed chunk, rows compared with the samples;
 //! (2) well-formed OTLP exports through OtlpGrpcService::export -> chunk;
@@ -42,6 +43,9 @@ use std::io::Write;
 use std::sync::Arc;
 use tower::ServiceExt;
 
+/// User-mode CPU seconds one request body may cost the receiver before it is called a hang.
+const HANG_USER_CPU_S: u64 = 20;
+
 const RESERVED: [&str; 5] = ["timestamp", "metric_name", "value_f64", "value_i64", "value_u64"];
 
 // ---------------------------------------------------------------- parent
@@ -50,7 +54,7 @@ pub fn run(ctx: &Ctx) -> Outcome {
     let mut out = Outcome::new(
         "C17",
         "case = one request (well-formed: remote-write / OTLP export / Flight stream, compared row by row with the stored chunk; hostile: one \
-         mutated or random body, watched for panic, hang > 10 s, and acceptance of a truncated encoding); non-trivial = a well-formed request with \
+         mutated or random body, watched for panic, hang (> 20 s of the receiver's user-mode CPU time inside one body), and acceptance of a truncated encoding); non-trivial = a well-formed request with \
          >= 2 series/points and >= 2 distinct label sets, or a hostile body that got past the first decoding stage (snappy / outer message), \
          distinct by hash of the body",
     );
@@ -61,6 +65,7 @@ pub fn run(ctx: &Ctx) -> Outcome {
     let dir = util::scratch_dir("c17");
     let mut from = my.start;
     let mut deaths = 0;
+    let mut hangs = 0;
     while from < my.end {
         let outp = format!("{}/w{}.jsonl", dir, from);
         let mut child = match std::process::Command::new(&exe)
@@ -81,21 +86,30 @@ pub fn run(ctx: &Ctx) -> Outcome {
                 break;
             }
         };
-        // Hang monitor. The verdict is taken on the worker's own CPU time, not on the wall clock: a
-        // body that keeps the receiver BUSY for more than 10 CPU-seconds (normal is < 1 ms) without the
-        // progress file growing is a hang. A stall without CPU consumption (loaded or paused machine,
-        // snapshotting VM) is no verdict; only after 5 minutes of it the worker is restarted and the run
-        // is marked inconclusive.
-        let cpu_ticks = |pid: u32| -> u64 {
+        // Hang monitor. The verdict is taken on the worker's own USER-MODE CPU time, neither on the wall
+        // clock nor on its kernel time: a body that keeps the receiver computing for more than
+        // HANG_USER_CPU_S seconds of user CPU (the heaviest request the generators produce costs about
+        // 1 s, the typical one < 1 ms) without the progress file growing is a hang - a loop that does not
+        // end burns user time without bound, so any finite budget finds it. Kernel time is left out of the
+        // verdict because it measures the machine, not the request: the parallel workers contend inside
+        // the kernel when several of them fault in fresh memory at once (measured on case 30357 of seed 1:
+        // 0.2 s of system time when its shard runs alone, 12.4 s next to seven other shards, user time
+        // 0.3 - 0.55 s in both). A stall without user CPU consumption (loaded or paused machine,
+        // snapshotting VM, kernel contention) is no verdict; only after 5 minutes of it without any CPU use,
+        // or 30 minutes with kernel time only, the worker is restarted and the run is marked inconclusive.
+        let ticks_per_s = (unsafe { libc::sysconf(libc::_SC_CLK_TCK) }).max(1) as u64;
+        let budget_s = if std::env::var("CSVERIF_UNDER_VALGRIND").is_ok() { HANG_USER_CPU_S * 50 } else { HANG_USER_CPU_S };
+        // (utime, stime) of the whole worker process, all threads, in clock ticks
+        let cpu_ticks = |pid: u32| -> (u64, u64) {
             std::fs::read_to_string(format!("/proc/{}/stat", pid))
                 .ok()
                 .and_then(|t| {
                     let rest = t.rsplit(')').next()?.to_string();
                     let f: Vec<&str> = rest.split_whitespace().collect();
                     // after the command name: state is f[0]; utime and stime are fields 14 and 15 of the line
-                    Some(f.get(11)?.parse::<u64>().ok()? + f.get(12)?.parse::<u64>().ok()?)
+                    Some((f.get(11)?.parse::<u64>().ok()?, f.get(12)?.parse::<u64>().ok()?))
                 })
-                .unwrap_or(0)
+                .unwrap_or((0, 0))
         };
         let pid = child.id();
         let mut last_len = 0u64;
@@ -103,6 +117,7 @@ pub fn run(ctx: &Ctx) -> Outcome {
         let mut cpu_at_change = cpu_ticks(pid);
         let mut hung = false;
         let mut starved = false;
+        let mut stall_cpu = (0u64, 0u64);
         let status = loop {
             match child.try_wait() {
                 Ok(Some(st)) => break Some(st),
@@ -116,15 +131,23 @@ pub fn run(ctx: &Ctx) -> Outcome {
                 last_change = crate::clock::real_mono_ns();
                 cpu_at_change = cpu_ticks(pid);
             } else {
-                let busy_ticks = cpu_ticks(pid).saturating_sub(cpu_at_change);
-                if busy_ticks > 1000 {
-                    // > 10 s of CPU (100 ticks per second) inside one request body
+                let now = cpu_ticks(pid);
+                let user_ticks = now.0.saturating_sub(cpu_at_change.0);
+                let sys_ticks = now.1.saturating_sub(cpu_at_change.1);
+                out.max("max:stall.user_cpu_ms_without_progress", user_ticks * 1000 / ticks_per_s);
+                out.max("max:stall.system_cpu_ms_without_progress", sys_ticks * 1000 / ticks_per_s);
+                if user_ticks > budget_s * ticks_per_s {
                     let _ = child.kill();
                     let _ = child.wait();
                     hung = true;
+                    stall_cpu = (user_ticks * 1000 / ticks_per_s, sys_ticks * 1000 / ticks_per_s);
                     break None;
                 }
-                if crate::clock::real_mono_ns() - last_change > 300_000_000_000 {
+                // no verdict: 5 minutes without progress and (almost) without CPU use, or half an hour
+                // without progress spent in the kernel
+                let wall_s = (crate::clock::real_mono_ns() - last_change) / 1_000_000_000;
+                let idle = user_ticks + sys_ticks < 3 * ticks_per_s;
+                if (wall_s > 300 && idle) || wall_s > 1800 {
                     let _ = child.kill();
                     let _ = child.wait();
                     starved = true;
@@ -133,7 +156,7 @@ pub fn run(ctx: &Ctx) -> Outcome {
             }
         };
         if starved {
-            out.inconclusive("a C17 worker made no progress for 5 minutes without consuming CPU (machine stalled?)");
+            out.inconclusive("a C17 worker made no progress for 5 minutes without consuming CPU, or for 30 minutes while busy in the kernel only (machine stalled?)");
         }
         let text = std::fs::read_to_string(&outp).unwrap_or_default();
         let mut last_begin: Option<Value> = None;
@@ -154,6 +177,16 @@ pub fn run(ctx: &Ctx) -> Outcome {
                         out.nontrivial(v["hash"].as_u64().unwrap_or(0));
                     }
                     out.count("rows_compared", v["rows"].as_u64().unwrap_or(0));
+                    // what the case cost the receiving process (getrusage around the case, in the worker)
+                    let (ut, st) = (v["utime_us"].as_u64().unwrap_or(0), v["stime_us"].as_u64().unwrap_or(0));
+                    out.max("max:case.user_cpu_ms", ut / 1000);
+                    out.max("max:case.system_cpu_ms", st / 1000);
+                    if ut > 1_000_000 {
+                        out.count("cases.over_1s_user_cpu", 1);
+                    }
+                    if ut + st > 10_000_000 {
+                        out.count("cases.over_10s_user_plus_system_cpu", 1);
+                    }
                     for viol in v["violations"].as_array().cloned().unwrap_or_default() {
                         out.violation(viol["sig"].as_str().unwrap_or("C17/unknown"), viol["what"].as_str().unwrap_or(""), viol["witness"].clone());
                     }
@@ -178,7 +211,14 @@ pub fn run(ctx: &Ctx) -> Outcome {
             Some(v) => {
                 let i = v["i"].as_u64().unwrap_or(done_upto);
                 let (sig, what) = if hung {
-                    (format!("C17/hang/{}", v["kind"].as_str().unwrap_or("?")), format!("one request body kept the receiver busy for more than 10 s of CPU time (case {})", i))
+                    hangs += 1;
+                    (
+                        format!("C17/hang/{}", v["kind"].as_str().unwrap_or("?")),
+                        format!(
+                            "one request body kept the receiver computing for more than {} s of user-mode CPU time without finishing (case {}; {} ms user, {} ms system when it was stopped)",
+                            budget_s, i, stall_cpu.0, stall_cpu.1
+                        ),
+                    )
                 } else {
                     (format!("C17/process-died/{}", v["kind"].as_str().unwrap_or("?")), format!("the receiving process died ({:?}) while handling one request body (case {})", status, i))
                 };
@@ -189,6 +229,11 @@ pub fn run(ctx: &Ctx) -> Outcome {
                 out.inconclusive(&format!("C17 worker died outside a case ({:?}, hung={})", status, hung));
                 from = done_upto + 1;
             }
+        }
+        if hangs >= 5 {
+            // each hang costs its whole budget; five witnesses decide the run, the rest of this shard is not run
+            out.note("a shard stopped early after 5 hang verdicts (the run is violated; its remaining cases were not run)");
+            break;
         }
         if deaths > 300 {
             out.inconclusive("more than 300 worker deaths");
@@ -521,11 +566,23 @@ pub fn worker(seed: u64, from: u64, to: u64, out_path: &str) {
                 env = new_env().await; // keep the catalog small
             }
             let mut rng = Rng::derive(seed, "C17", 0, i);
+            let (u0, s0) = self_cpu_us();
             let line = one_case(&mut env, &mut rng, i, seed, &mut f).await;
+            let (u1, s1) = self_cpu_us();
+            // the case's own cost, as the kernel accounts it to this process (all threads)
+            let line = format!("{},\"utime_us\":{},\"stime_us\":{}}}", line.strip_suffix('}').unwrap_or(&line), u1.saturating_sub(u0), s1.saturating_sub(s0));
             writeln!(f, "{}", line).ok();
             f.flush().ok();
         }
     });
+}
+
+/// (user, system) CPU time of this process so far, in microseconds.
+fn self_cpu_us() -> (u64, u64) {
+    let mut ru: libc::rusage = unsafe { std::mem::zeroed() };
+    unsafe { libc::getrusage(libc::RUSAGE_SELF, &mut ru) };
+    let us = |t: libc::timeval| t.tv_sec as u64 * 1_000_000 + t.tv_usec as u64;
+    (us(ru.ru_utime), us(ru.ru_stime))
 }
 
 const EVIL_VARINTS: [u64; 8] = [0, 1, 127, 1 << 31, (1 << 32) - 1, 1 << 63, u64::MAX, u64::MAX - 7];
